@@ -1252,6 +1252,15 @@ let render_part has locate part is_stop =
               (snd (if is_stop then bump (stop_of l) else start_of l)))
         | Raise e -> Raise e)
 
+(** val render_item :
+    (label -> bool) -> (label -> loc outcome) -> char list -> bool ->
+    char list outcome **)
+
+let render_item has locate part is_stop =
+  if has_char ch_tick part
+  then render_part has locate part is_stop
+  else Ret part
+
 (** val resolve_group :
     (label -> bool) -> (label -> loc outcome) -> char list -> char list
     outcome **)
@@ -1271,9 +1280,9 @@ let resolve_group has locate g =
            | stop :: step ->
              let start0 = strip is_py_space start in
              let stop0 = strip is_py_space stop in
-             (match render_part has locate start0 false with
+             (match render_item has locate start0 false with
               | Ret a ->
-                (match render_part has locate stop0 true with
+                (match render_item has locate stop0 true with
                  | Ret b ->
                    (match map (strip is_py_space) step with
                     | [] ->
